@@ -24,6 +24,7 @@ class Case:
         self.r = r
         self.exts = {}            # name -> (type, value)
         self.needs_tests = False
+        self.disabled = []        # positions of the rules switched off with yr_rule_disable after compiling
         self.buf = b""
         self.cuts = None
         self.rules = []           # list of Rule
@@ -750,7 +751,9 @@ def gen_case(r, maxdepth=MAXDEPTH):
                 cfold_walk(cond)
                 rule.cond = cond
                 c.rules.append(rule)
-            c.spec, c.stats, c.events = eval_rules([([s[2] for s in ru.strs], ru.cond) for ru in c.rules], blocks, len(c.buf), c.exts)
+            if nrules > 1 and r.random() < 0.12:          # the API dimension: some rules are disabled before the scan
+                c.disabled = sorted(r.sample(range(nrules), r.choice([1, 1, 2]) if nrules > 2 else 1))
+            c.spec, c.stats, c.events = eval_rules([([s[2] for s in ru.strs], ru.cond) for ru in c.rules], blocks, len(c.buf), c.exts, (), c.disabled)
             return c
         except (Reject, Budget, ZeroDivisionError, OverflowError):
             continue
